@@ -133,7 +133,9 @@ def _fft_shape(dx, du, z, wavelength, oversample):
 
 
 def _fft2(x):
-    return np.fft.ifftshift(np.fft.fft2(np.fft.fftshift(x), norm='ortho'))
+    # ifftshift moves the origin sample floor(n/2) to index 0 and fftshift moves
+    # the DC term back to floor(n/2); the two only coincide for even lengths
+    return np.fft.fftshift(np.fft.fft2(np.fft.ifftshift(x), norm='ortho'))
 
 
 def _has_tilt(wavefront):
